@@ -1163,6 +1163,31 @@ func c19Manager(r *simrt.Run, versions []*c19Version, kss []*wallet.KeyStore, da
 				} else {
 					c19CheckKeyStore(r, ks, e.v)
 					r.Probe("manager-unlock-ok")
+					// while the file is unlocked, another password still must not open it, and asking must
+					// not disturb the unlocked store
+					for _, wrong := range []string{c19Others(e.v.password)[0], ""} {
+						if wrong == e.v.password {
+							continue
+						}
+						if ks2, err := m.GetKeyFileAndDecrypt(e.name, wrong); err == nil && ks2 != nil {
+							r.Report("decrypt-accepts", "wrong-password", "Manager.GetKeyFileAndDecrypt(%s) succeeded with a wrong password while the file was unlocked", e.name)
+						}
+						r.Probe("manager-wrong-password-while-unlocked")
+					}
+					if ks3, err := m.GetKeyFileAndDecrypt(e.name, e.v.password); err != nil || ks3 == nil || !bytes.Equal(ks3.Entropy, e.v.entropy) {
+						r.Report("manager", "decrypt-while-unlocked", "GetKeyFileAndDecrypt(%s) with the right password while unlocked: err=%v", e.name, err)
+					}
+					if ks4, err := m.GetKeyStore(e.name); err != nil || ks4 == nil || !bytes.Equal(ks4.Entropy, e.v.entropy) {
+						r.Report("manager", "unlocked-store-disturbed", "the unlocked key store of %s no longer holds its entropy after decrypt requests: err=%v", e.name, err)
+					}
+					// lock and unlock again on the same manager
+					m.Lock(e.name)
+					if ks5, err := m.GetKeyStore(e.name); err == nil && ks5 != nil {
+						r.Report("manager", "still-unlocked-after-lock", "GetKeyStore(%s) succeeds after Lock", e.name)
+					}
+					if err := m.Unlock(e.name, e.v.password); err != nil {
+						r.Report("manager", "second-unlock-failed", "second Unlock(%s) with the right password on the same manager: %v", e.name, err)
+					}
 				}
 			}
 		}()
